@@ -11,6 +11,7 @@ import (
 	sdk "github.com/cosmos/cosmos-sdk/types"
 
 	base "github.com/regen-network/regen-ledger/x/ecocredit/v3/base/types/v1"
+	market "github.com/regen-network/regen-ledger/x/ecocredit/v3/marketplace/types/v1"
 
 	"verif/harness/chain"
 	"verif/harness/monitor"
@@ -64,6 +65,9 @@ func build(t *testing.T) *scenario {
 	do("retire", a.MsgRetire(0, "US-WA", "r", chain.Credits(batch1, "5")), true)
 	exp := t0.Add(time.Hour)
 	do("sell", a.MsgSell(0, chain.SellOrder(batch1, "50", chain.Coin("stake", 1000), true, &exp)), true)
+	do("update2", a.MsgUpdateSellOrders(0,
+		&market.MsgUpdateSellOrders_Update{SellOrderId: 1, NewQuantity: "40", NewAskPrice: chain.Coin("stake", 1000), DisableAutoRetire: true},
+		&market.MsgUpdateSellOrders_Update{SellOrderId: 1, NewQuantity: "45", NewAskPrice: chain.Coin("stake", 1000), DisableAutoRetire: true}), true)
 	do("buy", a.MsgBuyDirect(3, chain.BuyOrder(1, "10", chain.Coin("stake", 1000), true, "", "", nil)), true)
 	do("basket", a.MsgBasketCreate(2, "NCT", "d", "C", []string{"C01"}, true, nil, sdk.NewCoins(sdk.NewInt64Coin("stake", 20000000))), true)
 	do("put", a.MsgBasketPut(1, "eco.uC.NCT", chain.BasketCredit(batch1, "20")), true)
@@ -193,6 +197,13 @@ func TestMonitorsFireOnDoctoredObservations(t *testing.T) {
 		{"failed message writes", "send-fail", "C10/failed-msg-nonempty-diff", func(_, _ *chain.State) {}},
 		{"escrow off", "sell", "C06/escrow!=orders", func(_, post *chain.State) {
 			row(post, "BatchBalance", func(r chain.Row) bool { return isAddr(r, "address", "0") })["escrowed_amount"] = "49"
+		}},
+		{"second update of the same order works on a stale snapshot", "update2", "C06/update-escrow-delta", func(_, post *chain.State) {
+			r := row(post, "BatchBalance", func(r chain.Row) bool { return isAddr(r, "address", "0") })
+			r["escrowed_amount"], r["tradable_amount"] = "35", "860"
+		}},
+		{"last update of the same order lost", "update2", "C06/update-final-state", func(_, post *chain.State) {
+			row(post, "SellOrder", nil)["quantity"] = "40"
 		}},
 		{"order with zero quantity", "sell", "C06/order-quantity-not-positive", func(_, post *chain.State) {
 			row(post, "SellOrder", nil)["quantity"] = "0"
